@@ -247,39 +247,41 @@ example : v1Closed [{ kind := .ifK, nextElse := some 2 }] = false ∧
     v1Closed [{ kind := .ifK }] = false ∧ v1Closed [{ kind := .goto, name := some "x" }] = false := by
   decide
 
-/-! ## (C) Colang 2.x: the expansion model (if / elif / else, while / break / continue) -/
+/-! ## (C) Colang 2.x: the expansion model
 
-/-- The expansion of ANY statement list (arbitrary nesting) is closed: every goto / break / continue target is a label
-    of the same flow (a `break` / `continue` outside any loop keeps `label = None`), only primitives remain, and no
-    scope / merge element is produced. -/
-theorem expand_closed (ss : List Stmt) : Closed (expandFlow ss) :=
-  closed_of_inv _ 0 (expand_inv none ss 0)
+  Source language: if / elif / else, while / break / continue, `match` / `send` / `start` / `await` of single specs and
+  of and/or groups (fork / merge / wait templates), `activate` / `deactivate`, NLD assignment, `when / or when / else`
+  (with the repaired else path of /repo 3c50707: MergeHeads + EndScope).  `wfList` only asks for what the parser
+  guarantees (a `when` has ≥ 1 case, one then-body per case, every case ≥ 1 group). -/
+
+/-- The expansion of ANY well-formed statement list (arbitrary nesting) is closed: every goto / fork / failure-handler /
+    break / continue target is a label of the same flow (a `break` / `continue` outside any loop keeps `label = None`),
+    only primitives remain, every MergeHeads has its ForkHead before it, every EndScope a BeginScope before it and every
+    BeginScope an EndScope after it. -/
+theorem expand_closed (ss : List Stmt) (hwf : wfList ss = true) : Closed (expandFlow ss) :=
+  closed_of_inv _ 0 (expand_inv none ss 0 hwf)
 
 /-- hence the proved checker accepts it … -/
-theorem expand_checker_accepts (ss : List Stmt) : closed (expandFlow ss) = true :=
-  (closed_checker_correct _).2 (expand_closed ss)
+theorem expand_checker_accepts (ss : List Stmt) (hwf : wfList ss = true) : closed (expandFlow ss) = true :=
+  (closed_checker_correct _).2 (expand_closed ss hwf)
 
-/-- … and no look-up of `slide` fails on any execution of the expanded flow, nor can the scope error occur. -/
-theorem expand_safe (ss : List Stmt) (h : Head Lbl) (hr : Reach (expandFlow ss) h) (c : Bool) :
-    step (expandFlow ss) h c ≠ .keyError ∧ step (expandFlow ss) h c ≠ .invalidLabel ∧
-    step (expandFlow ss) h c ≠ .scopeError ∧ h.pos ≤ (expandFlow ss).length := by
-  obtain ⟨h1, h2, h3⟩ := closed_reachable_safe _ (expand_closed ss) h hr c
-  refine ⟨h1, h2, ?_, h3⟩
-  apply scope_safe_partial
-  intro n hn
-  exact ((expand_inv none ss 0).plain _ hn).2.1 n rfl
+/-- … and no label look-up of `slide` / `run_to_completion` fails on any execution of the expanded flow. -/
+theorem expand_safe (ss : List Stmt) (hwf : wfList ss = true) (h : Head Lbl) (hr : Reach (expandFlow ss) h) (c : Bool) :
+    step (expandFlow ss) h c ≠ .keyError ∧ step (expandFlow ss) h c ≠ .invalidLabel ∧ h.pos ≤ (expandFlow ss).length :=
+  closed_reachable_safe _ (expand_closed ss hwf) h hr c
 
 /-- Fresh-label lemma for the uid counter: every label defined while expanding `ss` from counter value `c` carries a
-    counter value in `[c, c')` where `c'` is the counter afterwards (so labels of consecutive / nested expansions never
-    collide) … -/
-theorem expand_labels_fresh (cb : Option (Lbl × Lbl)) (ss : List Stmt) (c : Nat) (l : Lbl)
+    counter value in `[c, c')` where `c'` is the counter afterwards — labels of consecutive / nested expansions (and of
+    the several copies the compiler makes of a then- / else-body) never collide. -/
+theorem expand_labels_fresh (cb : Option (Lbl × Lbl)) (ss : List Stmt) (hwf : wfList ss = true) (c : Nat) (l : Lbl)
     (h : Prim.label l ∈ (expand cb ss c).1) : c ≤ l.2 ∧ l.2 < (expand cb ss c).2 :=
-  (expand_inv cb ss c).fresh l h
+  (expand_inv cb ss c hwf).fresh l h
 
-/-- … and all labels of an expanded flow are pairwise distinct (for this subset; `when` duplicates labels in the real
-    compiler, which is why `Closed` does not demand uniqueness). -/
-theorem expand_labels_nodup (ss : List Stmt) : (labelsOf (expandFlow ss)).Nodup :=
-  expand_nodup none ss 0
+/-- every template on its own: the fork / merge / wait templates (match and-groups, or-groups, await or-groups with
+    their scope) over arbitrary closed branch bodies are closed pieces -/
+theorem fork_template_closed (v : Variant) (pre : Nat → String) (gens : List Gen) (hg : ∀ g ∈ gens, GenOK [] g) (c : Nat) :
+    Closed (forkTemplate v pre gens c).1 :=
+  closed_of_inv _ c (forkTemplate_ok [] v pre gens hg c)
 
 /-- `break` / `continue` are resolved to the labels of the innermost enclosing loop, also through `if` (finite fact) -/
 example : expandFlow [.whileS [.ifS [.brk] [.whileS [.cont]]], .brk] =
@@ -288,6 +290,14 @@ example : expandFlow [.whileS [.ifS [.brk] [.whileS [.cont]]], .brk] =
      .label ("_while_begin_", 3), .goto ("_while_end_", 3), .cont (some ("_while_begin_", 3)), .goto ("_while_begin_", 3), .label ("_while_end_", 3),
      .label ("if_end_label_", 2),
      .goto ("_while_begin_", 0), .label ("_while_end_", 0), .brk none] := by
+  decide
+
+/-- non-vacuity of `wfList` and a look at the repaired `when … else` inside a loop: closed, and (finite fact) the path that
+    made the unrepaired compiler's output raise "Scope … already opened" now ends in `EndScope` before the loop repeats -/
+example : wfList [.whileS [.whenS [[[⟨.ev, false⟩]]] [[.send]] [.send] true]] = true ∧
+    closed (expandFlow [.whileS [.whenS [[[⟨.ev, false⟩]]] [[.send]] [.send] true]]) = true ∧
+    (expandFlow [.whileS [.whenS [[[⟨.ev, false⟩]]] [[.send]] [.send] true]]).filter (fun e => e == .endScope ("scope_", 1))
+      = [.endScope ("scope_", 1), .endScope ("scope_", 1)] := by
   decide
 
 end NemoVerif.C12
